@@ -35,6 +35,11 @@ def gen_cases(ctx):
         exc = 'trypsin_exception' if (rule == 'trypsin' and rng.random() < 0.6) else None
         s = R.gen_protein(rng, rule, rng.randint(0, 60), extra='UX*')
         cases.append(dict(kind='sites', rule=rule, exc=exc, seq=s))
+    for i in range(n_sites // 2):
+        rule = names[i % len(names)]
+        exc = 'trypsin_exception' if (rule == 'trypsin' and rng.random() < 0.6) else None
+        s = R.gen_protein(rng, rule, rng.randint(0, 50), extra='UX*', bias=0.75)
+        cases.append(dict(kind='sites_range', rule=rule, exc=exc, seq=s))
     for i in range(n_cleave):
         rule = names[i % len(names)] if rng.random() < 0.6 else 'trypsin'
         exc = 'trypsin_exception' if (rule == 'trypsin' and rng.random() < 0.6) else None
@@ -90,6 +95,8 @@ def gen_cases(ctx):
             for tup in itertools.product(alpha, repeat=n):
                 cases.append(dict(kind='sites', rule=rule, exc='trypsin_exception' if rule == 'trypsin' else None,
                                   seq=''.join(tup), short=True))
+                cases.append(dict(kind='sites_range', rule=rule, exc='trypsin_exception' if rule == 'trypsin' else None,
+                                  seq=''.join(tup), short=True))
     return cases
 
 def resolved_exc(ps):
@@ -117,6 +124,8 @@ def oracle_req(c):
         return ('pool_multi', reqs)
     if c['kind'] == 'sites':
         return ('sites', [c['rule'], c['exc'], c['seq']])
+    if c['kind'] == 'sites_range':
+        return ('sites_range', [c['rule'], c['exc'], c['seq']])
     lim = [c['k'], c['mw4'], c['min_len'], c['max_len']]
     if c['kind'] == 'cleave':
         return ('cleave', [c['rule'], c['exc'], lim, c['nf'], c['seq']])
@@ -126,6 +135,8 @@ def oracle_req(c):
 def canon_model(c, m):
     if c['kind'] == 'sites':
         return m
+    if c['kind'] == 'sites_range':
+        return 'ValueError' if m[0] else m[1]
     if c['kind'] == 'pool_cli':
         pools = [('ValueError' if r else sorted(set(O.U(p) for p in ps))) for r, ps in m]
         return {'index': pools, 'fly': pools}
